@@ -580,7 +580,7 @@ fn seq_covers(seen: u8) {
 }
 
 /// (b) SwapTickSequence::get_next_initialized_tick_index == reference; 2 dynamic array(s), start_array_index 0 (both concrete: symbolic ones ran out of memory / time), symbolic valid start indexes, 128-bit bitmaps, search tick; direction a2b; spacing 64; the per-array search is replaced by its reference from (a)
-// @verif prop=C10 tier=quick timeout=900 contract
+// @verif prop=C10,C05 tier=quick timeout=900 contract
 #[kani::proof]
 #[kani::unwind(5)]
 #[kani::stub(alloc::fmt::format, stub_format)]
@@ -596,7 +596,7 @@ fn c10_b_seq_n2_idx0_a2b_ts64() {
 }
 
 /// (b) SwapTickSequence::get_next_initialized_tick_index == reference; 2 dynamic array(s), start_array_index 0 (both concrete: symbolic ones ran out of memory / time), symbolic valid start indexes, 128-bit bitmaps, search tick; direction b2a; spacing 64; the per-array search is replaced by its reference from (a)
-// @verif prop=C10 tier=quick timeout=900 contract
+// @verif prop=C10,C05 tier=quick timeout=900 contract
 #[kani::proof]
 #[kani::unwind(5)]
 #[kani::stub(alloc::fmt::format, stub_format)]
